@@ -9,6 +9,7 @@ import CffVerif.Text.Alias
 import CffVerif.Text.Stack
 import CffVerif.Text.GenName
 import CffVerif.Text.Outputs
+import CffVerif.Text.ModName
 
 namespace Text.Check
 
@@ -184,8 +185,24 @@ def checkDT (toks : List String) : List Div :=
 def checkSM (toks : List String) : List Div :=
   if field toks "same_modulo_comments" != some "1" then [("sm.differs", (toks.getD 1 "?") ++ " " ++ (toks.getD 2 ""))] else []
 
+/-- Section MN: names generated by -genmode=modifier against `Text.modName`. -/
+def checkMN (toks : List String) : List Div :=
+  let f := field toks
+  match f "file", f "kind", (f "line").bind String.toNat?, (f "col").bind String.toNat?, f "name" with
+  | some file, some kind, some l, some c, some name =>
+    let want := modName kind file l c
+    if name == want then [] else [("mn.name", s!"{file}:{l}:{c} {kind}: model {want} impl {name}")]
+  | _, _, _, _, _ => [("mn.parse", " ".intercalate toks)]
+
+def checkMNB (toks : List String) : List Div :=
+  let f := field toks
+  (if f "exit" != some "0" then [("mn.exit", "cff -genmode=modifier failed on the naming fixture")] else []) ++
+  (if f "builds" != some "1" then [("mn.builds", "modifier-mode output of the naming fixture does not build")] else [])
+
 def checkLine (toks : List String) : List Div :=
   match toks with
+  | "MN" :: _ => checkMN toks
+  | "MNB" :: _ => checkMNB toks
   | "BT" :: _ => checkBT toks
   | "AL" :: _ => checkAL toks
   | "ES" :: _ => checkES toks
